@@ -97,7 +97,8 @@ Inductive obs := OAt (t : Z) | OSize | OHead | OPop (prio : Z) (valid : bool) (r
 Fixpoint ins (x : Z) (l : list Z) : list Z := match l with [] => [x] | y :: t => if x <=? y then x :: l else y :: ins x t end.
 Definition sort (l : list Z) : list Z := fold_right ins [] l.
 Fixpoint leq (a b : list Z) : bool := match a, b with [], [] => true | x :: a', y :: b' => (x =? y) && leq a' b' | _, _ => false end.
-Definition cfg0 := code_cfg false 100.
+Section Acceptor.
+Variable cfg0 : cfg.
 Definition bind (o : option st) (f : st -> option st) : option st := match o with Some s => f s | None => None end.
 (* bring the loop to the top of its for body: finish a dispatch, consume a token *)
 Definition to_size (s : st) : option st :=
@@ -129,13 +130,26 @@ Definition ostep (s : st) (o : obs) : option st :=
       | _ => None end
   | OBusy => match lpc s with PDispatch => Some s | _ => None end
   end.
-Fixpoint replay (s : st) (l : list obs) (i : nat) : option nat :=
-  match l with [] => None | o :: t => match ostep s o with Some s' => replay s' t (S i) | None => Some i end end.
+(* The runtime may deliver the tick of an armed, due timer at any moment the harness cannot see (for
+   instance while the loop is inside a fetch): the acceptor keeps every model state that is possible,
+   with and without such a TimerFire before each observation. *)
+Definition with_fire (s : st) : list st := match step cfg0 s TimerFire with Some s' => [s; s'] | None => [s] end.
+Definition ostep_all (ss : list st) (o : obs) : list st :=
+  firstn 64 (flat_map (fun s => flat_map (fun s0 => match ostep s0 o with Some s1 => [s1] | None => [] end) (with_fire s)) ss).
+Fixpoint replay (ss : list st) (l : list obs) (i : nat) : option nat :=
+  match l with [] => None | o :: t => match ostep_all ss o with [] => Some i | ss' => replay ss' t (S i) end end.
+End Acceptor.
 Definition cases : list (nat * (list Z * bool * list obs)) := [
 %s
 ].
+(* a run is accepted if the model accepts it under either timer-channel semantics *)
+Definition rejected (q0 : list Z) (tok0 : bool) (l : list obs) : option nat :=
+  match replay (code_cfg false 100) [init q0 tok0] l 0 with
+  | None => None
+  | Some i => match replay (code_cfg true 100) [init q0 tok0] l 0 with None => None | Some j => Some (Nat.max i j) end
+  end.
 Definition MISMATCH := Eval vm_compute in
-  flat_map (fun c => let '(id, (q0, tok0, l)) := c in match replay (init q0 tok0) l 0 with Some i => [(id, i)] | None => [] end) cases.
+  flat_map (fun c => let '(id, (q0, tok0, l)) := c in match rejected q0 tok0 l with Some i => [(id, i)] | None => [] end) cases.
 Print MISMATCH.
 """
 
